@@ -92,7 +92,8 @@ ob("C08", "K1.optional_guard", {"c0": CP, "c1": R(32, 32), "was_none": BOOL}, T=
 # P1: round 2 == round 1 on the conversion pipelines, on a domain WIDER than C01/C02 ----------------------------------------
 TRIGGER_DOCS = ("number of things", "whether to do it", "the result,", "list of str", "the dataset name or path.", "first arg", "a `str` or `int`",
                 "learning rate, defaults to 1", "see foo; bar:")
-TYPES = ("int", "str", "float", "Optional[int]", "List[str]", "dict", "Union[int, str]")
+TYPES = ("int", "str", "float", "Optional[int]", "List[str]", "dict", "Union[int, str]", "bool", "Optional[float]")
+DEFAULTS8 = (0, 1, 0.5, 2, -1.5)  # values that READ differently under another type (0.5 as int, 2 as bool)
 
 
 def ireq(a, b):
@@ -114,7 +115,7 @@ def ireq(a, b):
     return ""
 
 
-def _p1(fmt, d):
+def _p1(fmt, d, keep=False):
     doc = TRIGGER_DOCS[d]
 
     def body(t, i, nonsuffix):
@@ -124,18 +125,22 @@ def _p1(fmt, d):
                 typ = TYPES[k]
         a = {"typ": typ, "doc": doc}
         b = {"typ": "int", "doc": "second arg"}
+        dv = DEFAULTS8[0]
+        for k in range(1, len(DEFAULTS8)):
+            if i == k:
+                dv = DEFAULTS8[k]
         if nonsuffix:
-            a["default"] = i  # default in NON-suffix position
+            a["default"] = dv  # default in NON-suffix position
         else:
-            b["default"] = i
+            b["default"] = dv if isinstance(dv, int) else int(dv)
         ir0 = {"name": "C", "doc": "Header line.", "type": "static", "params": OrderedDict((("a", a), ("b", b))),
                "returns": OrderedDict((("return_type", {"typ": "int", "doc": "the result"}),))}
         try:
-            r1 = hop(fmt, ir0)
+            r1 = hop(fmt, ir0, keep_prose=keep)
         except Exception:
             return ""  # the first round may reject (outside the exact domain); drift is about what it accepts
         try:
-            r2 = hop(fmt, r1)
+            r2 = hop(fmt, r1, keep_prose=keep)
         except Exception as e:
             return "round 2 raised %s: %s on the output of round 1" % (type(e).__name__, e)
         return ireq(r1, r2)
@@ -145,9 +150,15 @@ def _p1(fmt, d):
 
 for _fmt in FORMATS:
     for _d in range(len(TRIGGER_DOCS)):
-        ob("C08", "P1.round2.%s.d%d" % (_fmt, _d), {"t": R(0, len(TYPES) - 1), "i": R(0, 1) , "nonsuffix": BOOL}, enum=True,
+        ob("C08", "P1.round2.%s.d%d" % (_fmt, _d), {"t": R(0, len(TYPES) - 1), "i": R(0, len(DEFAULTS8) - 1), "nonsuffix": BOOL}, enum=True,
            tier="quick" if _d < 4 else "thorough", T=500, tpath=120, funcs=FORMAT_FUNCS[_fmt], assumes=[ADHOC_SHIMS_DOC],
-           bound="description %r x types %r x int default 0/1 in suffix or NON-suffix position, return entry; round 2 == round 1 (solver-enumerated)" % (TRIGGER_DOCS[_d], TYPES))(_p1(_fmt, _d))
+           bound="description %r x types %r x default among %r in suffix or NON-suffix position, return entry; round 2 == round 1 (solver-enumerated)" % (TRIGGER_DOCS[_d], TYPES, DEFAULTS8))(_p1(_fmt, _d))
+
+
+for _d in range(len(TRIGGER_DOCS)):
+    ob("C08", "P1.round2.docstring.keep.d%d" % _d, {"t": R(0, len(TYPES) - 1), "i": R(0, len(DEFAULTS8) - 1), "nonsuffix": BOOL}, enum=True,
+       tier="quick" if _d < 4 else "thorough", T=500, tpath=120, funcs=FORMAT_FUNCS["docstring"], assumes=[ADHOC_SHIMS_DOC],
+       bound="as P1.round2.docstring.d%d with the docstring parser's own default emit_default_doc=True (the 'Defaults to' prose stays in the description): round 2 == round 1" % _d)(_p1("docstring", _d, True))
 
 
 # json_schema: round n+1 == round n for 3 rounds, JSON-representable types incl. Literal members with regex-special characters ------------
